@@ -864,8 +864,10 @@ class Engine(ExprMixin, CallMixin):
         sb.assume(c)
         sb.trail.append(f"loop{ordn}:body")
         if spec.get("decreases"):
+            # a single measure, or a tuple/list of measures compared lexicographically (each component bounded below by 0)
+            decs = spec["decreases"] if isinstance(spec["decreases"], (list, tuple)) else [spec["decreases"]]
             with self.spec():
-                dec0 = self.to_int(self.ev(_parse(spec["decreases"]), sb))
+                dec0 = [self.to_int(self.ev(_parse(d), sb)) for d in decs]
         for code in spec.get("begin", []):
             sb = self.run_ghost(code, [sb])[0]
         for o in self.exec_block(stmt.body, sb):
@@ -875,8 +877,11 @@ class Engine(ExprMixin, CallMixin):
                     self.check_invariants(s3, spec, ordn, "preserved", stmt)
                     if dec0 is not None:
                         with self.spec():
-                            dec1 = self.to_int(self.ev(_parse(spec["decreases"]), s3))
-                        self.emit(s3, z3.And(dec0 >= 0, dec1 < dec0), "decreases", stmt, f"loop{ordn}")
+                            dec1 = [self.to_int(self.ev(_parse(d), s3)) for d in decs]
+                        goal = z3.BoolVal(False)
+                        for idx in reversed(range(len(dec0))):
+                            goal = z3.Or(z3.And(dec0[idx] >= 0, dec1[idx] < dec0[idx]), z3.And(dec1[idx] == dec0[idx], goal))
+                        self.emit(s3, goal, "decreases", stmt, f"loop{ordn}")
             elif o.kind == "break":
                 after.append(o.st)
             else:
